@@ -102,6 +102,23 @@ theorem teardown_detached {s : State} (h : Reach s) (e : Event) (hn : (step s e)
 theorem closed_clean {s : State} (h : Reach s) (hc : s.closed = true) : s.readers = [] ∧ s.stream = none :=
   ⟨((reach_inv h).cl hc).2.1, ((reach_inv h).cl hc).1⟩
 
+/-- **Path termination.** Destroying the path (`close`) calls `Close()` on every attached reader —
+also on an alwaysAvailable path without a publisher — and leaves neither reader nor stream. -/
+theorem close_closes_all_readers {s : State} (h : Reach s) (hc : s.closed = false) :
+    (∀ r ∈ s.readers, Out.readerClosed r ∈ (step s .close).2) ∧
+    (step s .close).1.readers = [] ∧ (step s .close).1.stream = none := by
+  have hi := reach_inv h
+  have hcl : (step s .close).1.closed = true := by
+    unfold step stepW
+    rw [if_neg (by simp [hi.np]), if_neg (by simp [hc])]
+    show (doClose _).s.closed = true
+    rw [doClose_s]
+  have hclean := closed_clean (reach_step h .close) hcl
+  refine ⟨?_, hclean.1, hclean.2⟩
+  intro r hr
+  obtain ⟨sid, hsid⟩ := Option.isSome_iff_exists.mp (hi.r3 (List.ne_nil_of_mem hr))
+  exact teardown h .close sid hsid (by rw [hclean.2]; simp) r hr
+
 /-- The model never reaches one of the Go panics it makes explicit (nil hook call, double
 `Handler.Start`, `Handler.Stop` while stopped, failed type assertion, "should not happen"). -/
 theorem no_panic {s : State} (h : Reach s) : s.panicked = false := (reach_inv h).np
